@@ -211,6 +211,14 @@ func (s *scn) typedArgs(r *sim.Rand, mi methodInfo) ([]*pb.Arg, string) {
 		switch t.Kind() {
 		case reflect.String:
 			v := pool[r.Intn(len(pool))]
+			if mi.contract == "TransactionManager" && len(s.ibtp.order) > 0 && r.Chance(0.7) {
+				// an id of a transaction that is (or recently was) in flight
+				ids := s.ibtp.order
+				if len(ids) > 8 {
+					ids = ids[len(ids)-8:]
+				}
+				v = ids[r.Intn(len(ids))]
+			}
 			if r.Chance(0.4) && len(s.pairs) > 0 {
 				// a live service of another party
 				p := s.pairs[r.Intn(len(s.pairs))]
@@ -291,6 +299,18 @@ func (s *scn) applyCall(st CStep) {
 	}
 	mi := c[((st.N%len(c))+len(c))%len(c)]
 	r := sim.NewRand(uint64(st.A)*1000003 + uint64(st.B))
+	if st.B%3 == 1 {
+		// a third of the calls go to the entry points the statement reserves for contract-to-contract use
+		var io []methodInfo
+		for _, m := range ms {
+			if inList(internalOnly, m.contract, m.name) {
+				io = append(io, m)
+			}
+		}
+		if len(io) > 0 {
+			mi = io[((st.N%len(io))+len(io))%len(io)]
+		}
+	}
 	if st.B%3 == 0 {
 		// a third of the calls go to the operations that have a template (see templates)
 		var tm []methodInfo
